@@ -52,6 +52,10 @@ def gen_spec(rng: random.Random):
         "suffix": [rng.choice(events + ["nope"]) for _ in range(rng.randint(1, 5))],
         "other": [rng.choice(events) for _ in range(rng.randint(1, 3))],
         "how": rng.choice(["deepcopy", "pickle"]),
+        # a callback that queues a follow-up event, and a later callback of the same transition that raises: what is
+        # left in the engine's queue is NOT part of the clone, so it must not be part of the original either
+        "nest": rng.choice(events) if rng.random() < 0.3 else None,
+        "boom": rng.random() < 0.3,
     }
 
 
@@ -94,15 +98,25 @@ def build(spec):
     ns["ok"], ns["flip"] = ok, flip
 
     def mk(name):
+        nest = spec.get("nest") if name == "before_transition" else None
+        boom = spec.get("boom") and name == "on_transition"
         if is_async:
             async def cb(self, event=None, source=None, target=None):
                 trace_of(self).append((name, str(event), getattr(source, "id", None), getattr(target, "id", None)))
                 self._count = self.__dict__.get("_count", 0) + 1
+                if nest and self._count % 3 == 1 and len(trace_of(self)) < 200:
+                    await self.send(nest)
+                if boom and self._count % 4 == 2:
+                    raise ValueError(name)
                 return f"{name}:{self._count}"
         else:
             def cb(self, event=None, source=None, target=None):
                 trace_of(self).append((name, str(event), getattr(source, "id", None), getattr(target, "id", None)))
                 self._count = self.__dict__.get("_count", 0) + 1
+                if nest and self._count % 3 == 1 and len(trace_of(self)) < 200:
+                    self.send(nest)
+                if boom and self._count % 4 == 2:
+                    raise ValueError(name)
                 return f"{name}:{self._count}"
         cb.__name__ = name
         cb.__qualname__ = f"{tag}.{name}"
